@@ -534,7 +534,16 @@ func (server *SugarDB) handleConnection(conn net.Conn) {
 			break
 		}
 
-		res, err := server.handleCommand(ctx, message, &conn, false, false)
+		res, err := func() (res []byte, err error) {
+			// A panicking command handler must not take the whole server down with it.
+			defer func() {
+				if p := recover(); p != nil {
+					log.Printf("panic while handling command: %v\n", p)
+					err = fmt.Errorf("internal error: %v", p)
+				}
+			}()
+			return server.handleCommand(ctx, message, &conn, false, false)
+		}()
 		if err != nil && errors.Is(err, io.EOF) {
 			break
 		}
